@@ -113,8 +113,12 @@ class Run:
         listed = {(k['property'], k['rule'], k['construct']): k for k in known.get('findings', [])}
         violations: List[Finding] = []
         known_hits: List[Finding] = []
+        seen_keys = set()
         for r in self.results:
             for f in r.findings:
+                if f.key in seen_keys:
+                    continue
+                seen_keys.add(f.key)
                 if (self.prop, f.rule, f.construct) in listed:
                     known_hits.append(f)
                 else:
